@@ -12,7 +12,7 @@ Init == /\ cfg \in Configs /\ h = <<"-">> /\ cvip = ""
         /\ out = Nothing /\ done = FALSE
 Lookup(hh, v) == /\ ~done /\ h' = hh /\ cvip' = v /\ out' = MResolve(cfg, hh, v) /\ done' = TRUE
                  /\ UNCHANGED cfg
-Next == \E hh \in HostNames, v \in CVips : Lookup(hh, v)
+Next == ~done /\ \E hh \in HostNames, v \in CVips : Lookup(hh, v)
 
 (* ---------------------------- obligations ---------------------------- *)
 \* the mechanism computes what the property says, whatever the spelling of the host
